@@ -78,6 +78,8 @@ func runScenario(o *vrt.Obs, sc *b2fx.Scenario, tag string) {
 	b2fx.EventCounts(o, ev)
 	before := len(o.Violations)
 	b2fx.CheckCompleted(o, sc, res, a.Pending(), b.Pending(), ev)
+	b2fx.CheckContent(o, sc.MsgsA, b.Inbox(), "B")
+	b2fx.CheckContent(o, sc.MsgsB, a.Inbox(), "A")
 	for i := before; i < len(o.Violations); i++ {
 		if o.Violations[i].Detail == nil {
 			o.Violations[i].Detail = map[string]any{"scenario": sc.Describe(), "case": tag}
@@ -130,6 +132,7 @@ func run(c vrt.Case) vrt.Obs {
 			b2fx.EventCounts(&o, ev)
 			before := len(o.Violations)
 			b2fx.CheckCompleted(&o, sc, res, a.Pending(), pendB, ev)
+			b2fx.CheckContent(&o, sc.MsgsB, a.Inbox(), "A")
 			for k := before; k < len(o.Violations); k++ {
 				if o.Violations[k].Detail == nil {
 					o.Violations[k].Detail = map[string]any{"scenario": sc.Describe(), "gzip_A": gzA, "gzip_B": !gzA, "case": fmt.Sprintf("split-%d", i)}
